@@ -2132,6 +2132,20 @@ pub fn run_check(check: &dyn Check, cfg: &RunConfig) -> i32
 	coverage.insert("evaluations".into(), json!(tot.evals));
 	coverage.insert("distinct_nontrivial".into(), json!(distinct_nt));
 	coverage.insert("rule".into(), json!(check.rule()));
+	if tot.samples.is_empty()
+	{
+		// only a fuzz campaign ran: its corpus samples are the samples
+		for f in &fuzz_evidence
+		{
+			if let Some(a) = f["samples"].as_array()
+			{
+				for x in a
+				{
+					tot.samples.push(json!({"stream": format!("fuzz:{}", f["target"].as_str().unwrap_or("?")), "case": x}));
+				}
+			}
+		}
+	}
 	coverage.insert("samples".into(), json!(tot.samples));
 	coverage.insert("exhaustive".into(), json!(exhaustive_all));
 	coverage.insert("per_stream".into(), json!(tot.per_stream));
